@@ -27,8 +27,10 @@ BIN_FIELDS = {("node::Node", "next"), ("node::Node", "value"), ("node::TreeBin",
               ("node::TreeNode", "red")}
 
 
-def rule_l1(ctx, facts):
+def rule_l1(ctx, facts, rule="L1", only=None):
     for b in facts.bodies:
+        if only is not None and b.sid not in only:
+            continue
         vs = [v for v in validated_regions(b) if bin_lock_region(v.region)]
         if not vs:
             continue
@@ -39,7 +41,7 @@ def rule_l1(ctx, facts):
             if v.switch is None:
                 # a lock region without any mutation needs no validation (none exists today)
                 inreg = [m for m in muts if m in r.points]
-                ctx.inst("L1", b, what, r.call.span, not inreg and False, "no head re-validation: %s" % v.why)
+                ctx.inst(rule, b, what, r.call.span, not inreg and False, "no head re-validation: %s" % v.why)
                 continue
             bad = None
             n = 0
@@ -78,9 +80,9 @@ def rule_l1(ctx, facts):
                     if bad:
                         break
             if bad:
-                ctx.inst("L1", b, what, b.span_at(bad[0]), False, "%s at %s %s (validation at %s)" % (bad[1], b.span_at(bad[0]), bad[2], b.term(v.switch)["span"]))
+                ctx.inst(rule, b, what, b.span_at(bad[0]), False, "%s at %s %s (validation at %s)" % (bad[1], b.span_at(bad[0]), bad[2], b.term(v.switch)["span"]))
             else:
-                ctx.inst("L1", b, what, r.call.span, True, "%d mutation(s) in the region, all dominated by the equal edge of the re-validation at %s; "
+                ctx.inst(rule, b, what, r.call.span, True, "%d mutation(s) in the region, all dominated by the equal edge of the re-validation at %s; "
                          "the unequal edge leaves without mutating" % (n, b.term(v.switch)["span"]))
 
 
@@ -625,5 +627,7 @@ def run(ctx, facts):
         ctx.note("L5 is evaluated by the ESP rule O3 (C04)")
     rule_l6(ctx, facts)
     ctx.rule("L7", "lock-free readers search a tree bin through the tree only under the read lock, else through the next-pointer list (rule D6)", floor=3)
-    from .rules_c11 import rule_d6
+    from .rules_c11 import rule_d6, rule_tree_write_lock
     rule_d6(ctx, facts, rule="L7")
+    ctx.rule("L11", "the tree write lock is taken only from a lock word without writer and without readers", floor=2)
+    rule_tree_write_lock(ctx, facts, rule="L11")
